@@ -33,8 +33,12 @@ func verdictOf(out string) string {
 }
 
 func runSolver(name string, file string, to int, seed int) (string, string, float64) {
+	return runSolverCtx(context.Background(), name, file, to, seed)
+}
+
+func runSolverCtx(parent context.Context, name string, file string, to int, seed int) (string, string, float64) {
 	var cmd *exec.Cmd
-	ctx, cancel := context.WithTimeout(context.Background(), time.Duration(to+5)*time.Second)
+	ctx, cancel := context.WithTimeout(parent, time.Duration(to+5)*time.Second)
 	defer cancel()
 	switch name {
 	case "cvc5":
@@ -88,51 +92,70 @@ func discharge(o *Obl, cfg *solverCfg, idx int, extra ...string) {
 		}
 		return
 	}
-	v, out, secs := runSolver("z3-new", file, cfg.quickTO, cfg.seed)
-	o.Secs = secs
-	if v == "unsat" {
-		o.Verdict, o.Backend = "discharged", "z3-new"
-		return
-	}
-	first := v
-	detail := "z3-new: " + v
-	if v == "error" {
-		detail += " " + firstLine(out)
-	}
-	// the other solvers, concurrently
+	// staged race: z3-new starts at once; if it has not answered after one
+	// second, cvc5 and z3 4.8 join. The first unsat wins and stops the rest.
 	type r struct {
 		name, v, out string
 		secs         float64
 	}
-	ch := make(chan r, 2)
-	for _, name := range []string{"cvc5", "z3"} {
-		go func(name string) {
-			v, out, secs := runSolver(name, file, cfg.fallback, cfg.seed)
+	ctx, cancel := context.WithCancel(context.Background())
+	defer cancel()
+	ch := make(chan r, 3)
+	start := func(name string, to int) {
+		go func() {
+			v, out, secs := runSolverCtx(ctx, name, file, to, cfg.seed)
 			ch <- r{name, v, out, secs}
-		}(name)
+		}()
 	}
-	sawSat := first == "sat"
-	for i := 0; i < 2; i++ {
-		x := <-ch
-		o.Secs += x.secs
-		detail += "; " + x.name + ": " + x.v
-		if x.v == "error" {
-			detail += " " + firstLine(x.out)
-		}
-		if x.v == "unsat" && o.Verdict != "discharged" {
-			o.Verdict, o.Backend = "discharged", x.name
-		}
-		if x.v == "sat" {
-			sawSat = true
+	start("z3-new", cfg.quickTO)
+	pending := 1
+	others := false
+	timer := time.NewTimer(time.Second)
+	defer timer.Stop()
+	detail := ""
+	sawSat := false
+	t0 := time.Now()
+	for pending > 0 {
+		select {
+		case <-timer.C:
+			if !others {
+				others = true
+				start("cvc5", cfg.fallback)
+				start("z3", cfg.fallback)
+				pending += 2
+			}
+		case x := <-ch:
+			pending--
+			if detail != "" {
+				detail += "; "
+			}
+			detail += x.name + ": " + x.v
+			if x.v == "error" {
+				detail += " " + firstLine(x.out)
+			}
+			if x.v == "sat" {
+				sawSat = true
+			}
+			if x.v == "unsat" {
+				o.Verdict, o.Backend = "discharged", x.name
+				o.Secs = time.Since(t0).Seconds()
+				o.Detail = detail
+				if sawSat {
+					o.Verdict = "conflict"
+				}
+				return
+			}
+			if !others && pending == 0 {
+				// z3-new answered (sat/unknown) within the first second: ask the others too
+				others = true
+				start("cvc5", cfg.fallback)
+				start("z3", cfg.fallback)
+				pending += 2
+			}
 		}
 	}
+	o.Secs = time.Since(t0).Seconds()
 	o.Detail = detail
-	if o.Verdict == "discharged" {
-		if sawSat {
-			o.Verdict = "conflict"
-		}
-		return
-	}
 	if sawSat {
 		o.Verdict = "failed-sat"
 	} else {
